@@ -38,6 +38,7 @@ from tlz import (
 )
 
 from dask import config
+from dask._expr import ProhibitReuse
 from dask._task_spec import (
     Alias,
     GraphNode,
@@ -108,6 +109,20 @@ def _count_references(obj, counts):
             _count_references(arg, counts)
 
 
+def _alias_target(node):
+    """The key an ``Alias`` refers to -- also when it is a key of a graph that
+    was copied under new names (wrapped in the identity) -- else ``None``."""
+    while (
+        isinstance(node, Task)
+        and node.func is ProhibitReuse._identity
+        and len(node.args) == 1
+    ):
+        node = node.args[0]
+    if isinstance(node, Alias):
+        return node.target
+    return None
+
+
 def lazify_task(task, start=True):
     """
     Given a task, remove unnecessary calls to ``list`` and ``reify``.
@@ -130,6 +145,17 @@ def lazify_task(task, start=True):
             return List(*[lazify_task(arg, False) for arg in task.args])
         if not isinstance(task, Task):
             return task
+        if task.func is ProhibitReuse._identity and len(task.args) == 1:
+            # A key of a graph that was copied under new names (a bag or item
+            # passed as an argument of another collection): the wrapped task is
+            # still the value of a key, not a nested expression, so a ``list``
+            # or ``reify`` at its head stays if it would at the top.
+            return Task(
+                task.key,
+                task.func,
+                lazify_task(task.args[0], start),
+                _data_producer=task.data_producer,
+            )
         if not start and task.func in (list, reify) and isinstance(task.args[0], Task):
             assert len(task.args) == 1
             task = task.args[0]
@@ -150,10 +176,10 @@ def lazify_task(task, start=True):
             keep = {outkey} | {k for k, n in refs.items() if n > 1}
             todo = list(keep)
             while todo:
-                node = subgraph.get(todo.pop())
-                if isinstance(node, Alias) and node.target not in keep:
-                    keep.add(node.target)
-                    todo.append(node.target)
+                target = _alias_target(subgraph.get(todo.pop()))
+                if target is not None and target not in keep:
+                    keep.add(target)
+                    todo.append(target)
             subgraph = {
                 k: lazify_task(v, k in keep)
                 for k, v in subgraph.items()
